@@ -25,9 +25,9 @@ static LD const TINY = 2.2250738585072014e-308L;
 #define VP_K 16
 #endif
 
-enum { L_ASINH, L_ACOSH, L_ATANH, L_EXPM1, L_LOG1P, L_ATAN2, L_ATAN2_AXIS, L_NORM, L_NORM_EXTREME, L_COORD, L_REDUCE, L_REDUCE_STRIDED, L_SHIFT, L_SHIFT_LEN0, L_TINY_ARG, L_HUGE_ARG, L_NEAR_SWITCH, L_NORM_SUBNORMAL };
+enum { L_ASINH, L_ACOSH, L_ATANH, L_EXPM1, L_LOG1P, L_ATAN2, L_ATAN2_AXIS, L_NORM, L_NORM_EXTREME, L_COORD, L_REDUCE, L_REDUCE_STRIDED, L_SHIFT, L_SHIFT_LEN0, L_TINY_ARG, L_HUGE_ARG, L_NEAR_SWITCH, L_NORM_SUBNORMAL, L_NORM_LONG };
 static char const *const labels[] = {"asinh", "acosh", "atanh", "expm1", "log1p", "atan2", "atan2_exact_axis", "norms", "norm_components_mix_huge_tiny", "coordinate_conversions",
-                                     "reductions", "strided_reductions", "shift_helpers", "shift_helper_length_0", "argument_lt_1e-3", "argument_gt_1e3", "argument_near_formula_switch", "norm_subnormal_components", nullptr};
+                                     "reductions", "strided_reductions", "shift_helpers", "shift_helper_length_0", "argument_lt_1e-3", "argument_gt_1e3", "argument_near_formula_switch", "norm_subnormal_components", "norm_of_1000_to_300001_components", nullptr};
 static char const *const metrics[] = {"asinh_err_u", "acosh_err_u", "atanh_err_u", "expm1_err_u", "log1p_err_u", "atan2_err_u", "norm_err_u", "coord_err_u", nullptr};
 static uint8_t const dict[] = {0, 1, 2, 3, 4, 5, 6, 7};
 static vp_info const info = {"C11", VP_CFG, "", labels, metrics, 200, dict, sizeof(dict)};
@@ -71,7 +71,7 @@ static void judge(Ctx &cx, unsigned slot, char const *sig, char const *what, LD 
     }
     LD ratio = err / scale;
     if (!(got == got)) { ratio = 1e30L; }
-    cx.metric(slot, double(ratio));
+    if (slot < 8) { cx.metric(slot, double(ratio)); } // slot 8: long vectors, judged against n*u, kept out of the maxima
     if (!(ratio <= K)) { cx.fail(sig, "%s(%.17Lg%s%.17Lg) = %.17Lg, reference %.17Lg: error %.3Lg u [config %s]", what, x, y != 0 ? ", " : "", y, got, ref, ratio, VP_CFG); }
 }
 
@@ -484,13 +484,72 @@ static void case_shift(Tape &t, Ctx &cx)
     }
 }
 
+// long vectors: "for all lengths" - many components of one common magnitude, the magnitude anywhere in the exponent range and
+// preferably around the square roots of the largest / smallest normal number, where an unscaled sum of squares stops being safe
+static void case_norm_long(Tape &t, Ctx &cx)
+{
+    static unsigned const lens[] = {1000, 65537, 200000, 300001, 4097, 65536, 250000, 300001};
+    unsigned n = lens[t.u8() % 8];
+    int const emax_t = A_SIZE_REAL == 4 ? 128 : 1024, emin_t = A_SIZE_REAL == 4 ? -125 : -1021;
+    int e;
+    switch (t.u8() % 4)
+    {
+    case 0: e = emax_t / 2 + int(t.u8() % 17) - 12; break;
+    case 1: e = emin_t / 2 + int(t.u8() % 17) - 4; break;
+    case 2: e = emax_t - 2 - int(t.u8() % 24) - 9; break; // the result m*sqrt(n) stays representable: sqrt(300001) < 2^10
+    default: e = emin_t + int(t.u16() % unsigned(emax_t - 11 - emin_t)); break;
+    }
+    unsigned stride = 1 + t.u8() % 2;
+    uint32_t a = t.u8() | 1;
+    unsigned lone = t.u8() % 4 == 0 ? t.u16() % n : n; // optionally one component 2^8 larger than the rest
+    // one reusable block (a fresh multi-megabyte allocation per case would go through the sanitizer's quarantine); the data sit
+    // at its end so that a read past the last component still leaves the block
+    static std::vector<a_real> pool(size_t(300001) * 2 + 1, a_real(1e30));
+    a_real *v = pool.data() + (pool.size() - ((size_t(n) - 1) * stride + 1));
+    if (stride == 2) { for (size_t i = 1; i < size_t(n) * 2 - 1; i += 2) { v[i] = a_real(1e30); } }
+    LD s = 0, comp = 0; // compensated sum of squares in long double
+    a_real tb[64];
+    LD sq[64];
+    for (unsigned j = 0; j < 64; ++j) { tb[j] = a_real(std::ldexp(1.0 + double(j) / 64.0, e)); sq[j] = (LD)tb[j] * (LD)tb[j]; }
+    for (unsigned i = 0; i < n; ++i)
+    {
+        unsigned j = (i * a) % 64u;
+        a_real x = tb[j];
+        LD x2 = sq[j];
+        if (i == lone && e + 9 < emax_t - 10) { x = a_real(std::ldexp(1.5, e + 8)); x2 = (LD)x * (LD)x; }
+        if ((i * a) & 64u) { x = -x; }
+        v[size_t(i) * stride] = x;
+        LD y = x2 - comp, tt = s + y;
+        comp = (tt - s) - y;
+        s = tt;
+    }
+    LD r = sqrtl(s);
+    cx.hash.add(n); cx.hash.add(unsigned(e + 2000)); cx.hash.add(a | (stride << 8)); cx.hash.add(lone);
+    cx.label(L_NORM);
+    cx.label(L_NORM_LONG);
+    cx.rep->nontrivial = true;
+    cx.log("norm of %u components of magnitude 2^%d (stride %u)\n", n, e, stride);
+    // the plain recursive sum of n squares may lose n*u relatively; representability of the result is the point here
+    LD g = stride == 1 ? a_real_norm(n, v) : a_real_norm_(n, v, stride);
+    judge(cx, 8, stride == 1 ? "norm:inaccurate" : "norm_:inaccurate", stride == 1 ? "a_real_norm (long vector)" : "a_real_norm_ (long vector)", g, r, n + 4, n, e);
+}
+
 static void run_case(Tape &t, Ctx &cx)
 {
     unsigned k = 0;
     do {
         ++k;
         ++cx.rep->subcases;
-        switch (t.u8() % 8)
+        uint8_t sel = t.u8();
+        // the long-vector class costs milliseconds per case: generated at its natural rate by the rapidcheck processes, switched off
+        // (VP_NO_HEAVY) in the coverage-guided processes, which would otherwise spend most of their budget mutating it
+        static bool const no_heavy = getenv("VP_NO_HEAVY") != nullptr;
+        if (sel == 252 && !no_heavy)
+        {
+            case_norm_long(t, cx);
+            continue;
+        }
+        switch (sel % 8)
         {
         case 0: case 1: case 2: case 3: case_fn(t, cx); break;
         case 4: case 5: case_norm(t, cx); break;
